@@ -51,7 +51,20 @@ def map_rules(ctx, flavours):
         chk('contains', lambda t: _is_call(t, 'contains_key', 2) and t[2][0] == MAPF and t[2][1] == P2_, 'contains(k) = map.contains_key(k)')
         chk('len', lambda t: _is_call(t, 'len', 1) and t[2][0] == MAPF, 'len() = map.len()')
         chk('is_empty', lambda t: _is_call(t, 'is_empty', 1) and t[2][0] == MAPF, 'is_empty() = map.is_empty()')
-        chk('get', lambda t: _is_call(t, 'cloned', 1) and _is_call(t[2][0], 'get', 2) and t[2][0][2][0] == MAPF and t[2][0][2][1] == P2_, 'get(k) = map.get(k).cloned()  (clone of the stored handle = same allocation)')
+        def _get_ok(t):
+            def lookup(x):
+                return _is_call(x, 'get', 2) and x[2][0] == MAPF and x[2][1] == P2_
+            if _is_call(t, 'cloned', 1) and lookup(t[2][0]):
+                return True
+            if _is_call(t, 'map', 2) and lookup(t[2][0]):
+                return True
+            # match form: Some(n) => Some(n.clone()), None => None
+            if isinstance(t, tuple) and t and t[0] == 'join':
+                somes = [x for x in t[1] if isinstance(x, tuple) and x[0] == 'aggr' and x[1].endswith('Option::Some')]
+                nones = [x for x in t[1] if isinstance(x, tuple) and x[0] == 'aggr' and x[1].endswith('Option::None')]
+                return len(somes) == 1 and len(somes) + len(nones) == len(t[1]) and lookup(deep_unwrap(somes[0][2][0]))
+            return False
+        chk('get', _get_ok, 'get(k) = clone of the handle stored under k (same allocation), None otherwise')
         chk('remove', lambda t: _is_call(t, 'remove', 2) and t[2][0] == MAPF and t[2][1] == P2_, 'remove(k) = map.remove(k)')
         chk('iter', lambda t: _is_call(t, 'iter', 1) and t[2][0] == MAPF, 'iter() = map.iter()')
         chk('to_vec', lambda t: _is_call(t, 'collect', 1) and _is_call(t[2][0], 'cloned', 1) and _is_call(t[2][0][2][0], 'values', 1) and t[2][0][2][0][2][0] == MAPF, 'to_vec() = map.values().cloned().collect()')
